@@ -340,7 +340,7 @@ def classify(unit, meta, run):
     verif_msgs = ("postcondition not satisfied", "precondition not satisfied", "possible arithmetic underflow/overflow",
                   "assertion failed", "invariant not satisfied", "possible division by zero",
                   "loop invariant", "decreases not satisfied", "unreachable", "possible bit shift",
-                  "recommendation not met")
+                  "recommendation not met", "precondition not met")
     hard = [b for b in errors if not any(b["msg"].startswith(v) or v in b["msg"] for v in verif_msgs)]
     if hard:
         # resource-limit is undecided as well
